@@ -14,4 +14,11 @@ def instances():
     out.append(Inst(id="capi.creators", props=["C15", "C01"], harness="h_capi.cpp", entry="c15_creators", tus=TUS,
                     defs=["VX_VK=K_INTEGER"], stubs=FMT_STUBS + CTX_STUBS + CONTAINER_STUBS, unwind=4, timeout=240,
                     bounds="strings <= 2 bytes", inputs="payloads, NULL-vs-text choice, lvalue flag"))
+    from vxlib import EMPTY_DECL_UNWIND
+    out.append(Inst(id="capi.store_load", props=["C15", "C01"], harness="h_capi.cpp", entry="c15_store_load", tus=TUS + ["blocc/string_reader.cpp"], defs=["VX_VK=K_INTEGER"],
+                    stubs=FMT_STUBS + CTX_STUBS + CONTAINER_STUBS, unwind=4, unwindset=EMPTY_DECL_UNWIND, timeout=600, bounds="one symbol; integer then 1-byte string", inputs="integer value, null flag, string byte"))
+    out.append(Inst(id="capi.items", props=["C15", "C01"], harness="h_capi.cpp", entry="c15_items", tus=TUS, defs=["VX_VK=K_INTEGER"],
+                    stubs=FMT_STUBS + CTX_STUBS + [x for x in CONTAINER_STUBS if "Complex" in x], unwind=4, unwindset=EMPTY_DECL_UNWIND, timeout=600, bounds="table and tuple of 2 items", inputs="index (all of unsigned)"))
+    out.append(Inst(id="capi.evaluate", props=["C15", "C01"], harness="h_capi.cpp", entry="c15_evaluate", tus=TUS, defs=["VX_VK=K_INTEGER"],
+                    stubs=FMT_STUBS + CTX_STUBS + CONTAINER_STUBS, unwind=4, unwindset=EMPTY_DECL_UNWIND, timeout=600, bounds="one expression node", inputs="whether evaluation raises, value"))
     return out
